@@ -41,7 +41,31 @@ def part_token(ctx):
     judge(ctx, items, res, "token_wide", "token")
 
 
-PARTS = [("token", part_token)]
+def part_timed(ctx):
+    cfgs = cooc_cfg.timed_cfgs(2, ctx.seed + 7, ctx.pick(16, 40))
+    from .. import tlc
+    items = cooc_gen.emit(ctx, 2, ctx.pick(3, 4), ctx.pick(1, 2), cfgs, "Cooc timed V=2 gaps {0,1,2}",
+                          extra_constants=dict(TIMED=True, Gaps=tlc.TLAExpr("{0,1,2}")))
+    for it in items:
+        it["shifts"] = [0, 1 << 24, 1600000000]
+    ctx.log("timed instances:", len(items))
+    res = pool_map("cooc", "run_timed", items, min_chunk=100)
+    judge(ctx, items, res, "timed", "timed")
+
+
+def part_multi(ctx):
+    cfgs = cooc_cfg.multi_cfgs(2, ctx.seed + 9, ctx.pick(24, 60))
+    items = cooc_gen.emit(ctx, 2, 1, 1, cfgs, "CoocMulti V=2", module="CoocMulti",
+                          invariants=["Refines", "DegeneratesToToken", "WindowMassOne"],
+                          extra_constants=dict(MaxSet=2, MaxSets=ctx.pick(3, 3), MaxDocs=ctx.pick(1, 2)))
+    for it in items:
+        it.pop("MaxLen", None)
+    ctx.log("multi instances:", len(items))
+    res = pool_map("cooc", "run_multi", items, min_chunk=100)
+    judge(ctx, items, res, "multi", "multi")
+
+
+PARTS = [("token", part_token), ("timed", part_timed), ("multi", part_multi)]
 
 
 def run(ctx):
